@@ -27,6 +27,7 @@ def build(cfg):
     order = cfg.get("order") or list(range(n))
     for k in order:
         emap.add(srcs[k])
+        list(emap.sources()); emap.size       # queries between the adds must not freeze a stale view
         if cfg.get("repeat"):
             emap.add(srcs[order[0]])          # repeats must not renumber anything
     mon = event.Monitor(emap, trigger=cfg.get("trigger", "level"))
@@ -152,6 +153,10 @@ def h_execute(history, parent_key=None):
                 emap.index(3)
         except Exception as e:
             raised = e
+        try:
+            list(emap.sources()); emap.size       # queries between the calls (results discarded)
+        except Exception:
+            pass
         # reference
         if letter.startswith("add") and letter != "add_bad":
             k = int(letter[3])
